@@ -138,6 +138,21 @@ def step (st : St) (op res : String) : St × List String :=
     | none, _, _ => (st, ["br:skipped.no-setup"])
     | _, _, _ => (st, ["DIVERGE drift unparsed-op"])
   | ["rage", _] => (st, ["br:range.time-passes"])      -- time is read off the timestamps of the lines that follow
+  | ["rmoved", ns, ne] =>
+    -- a start on a copy of the present database with ANOTHER range (harness/range.go): `setupRange` re-marks every stored
+    -- lease in the new allocator and refuses to start when one cannot be re-marked — the model: `RState.setup` on the table
+    -- written so far. A lease outside the new range that is tolerated is an address outside the configured range kept in
+    -- service (C02, and C05 at the level of the plugin).
+    match st.cfg, ip4 ns, ip4 ne with
+    | some cfg, some ns, some ne =>
+      let outside := st.s.db.any (fun r => r.ip.toNat < ns.toNat || r.ip.toNat > ne.toNat)
+      match RState.setup ns ne cfg.lease st.s.db some id with
+      | .ok _ => (st, "br:rmoved.ok" :: (if res == "ok" then [] else ["DIVERGE dom model=ok"]))
+      | .error _ => (st, "br:rmoved.refused" :: (if res == "err" then [] else
+          ["DIVERGE dom model=err"] ++ (if outside then
+            [s!"FAIL C02 a start with the range {ns.toNat}..{ne.toNat} accepted a lease table that holds an address outside it: that client keeps an address outside the configured range",
+             s!"FAIL C05 a start with the range {ns.toNat}..{ne.toNat} accepted a lease table that holds an address outside it"] else [])))
+    | _, _, _ => (st, ["br:range.skip"])
   | "rrestart" :: macs =>
     match st.cfg, words res with
     | some cfg, t0 :: _ :: "ok" :: servedW =>
